@@ -331,6 +331,14 @@ type task struct {
 	results  []*Outcome
 	panicked string
 	blocked  bool // released, but waiting inside the library (not parked)
+
+	// Instrumented builds: a task parked before a synchronisation operation
+	// may be held back for a few of its turns (a fixed function of the
+	// scenario), so that the others can take several steps between two
+	// synchronisation operations of this one.
+	syncParks   int
+	holdDecided bool
+	holdLeft    int
 }
 
 // releaseContexts cancels every context the listed outcomes still hold.
@@ -733,7 +741,7 @@ type RunStats struct {
 	Steps          int            `json:"steps"`
 	Ops            int            `json:"ops"`
 	FaultsFired    map[string]int `json:"faults_fired"`
-	SimNanos       int64          `json:"sim_ns"`
+	SimSeconds     float64        `json:"sim_s"` // fake-clock time covered, in seconds (a sum of nanoseconds overflows: scenarios jump decades)
 	ConcPairs      map[string]int `json:"conc_pairs,omitempty"`  // node-kind pairs stepped in one window
 	SameNodePairs  int            `json:"same_node_pairs"`       // ... on the same Path object
 	MaxWindow      int            `json:"max_window"`
@@ -928,6 +936,30 @@ func (w *world) runConcurrent() *runResult {
 			res.stats.MaxWindow = len(members)
 		}
 
+		if instrBuild && sc.Mode == "interleave" && len(members) == 1 && members[0].cur.kind == parkSync {
+			t := members[0]
+			if !t.holdDecided {
+				t.holdDecided = true
+				t.syncParks++
+				h := (sc.Seed+uint64(t.id)*0x9E3779B97F4A7C15+uint64(t.syncParks))*0xBF58476D1CE4E5B9 >> 29
+				if h%2 == 0 {
+					t.holdLeft = 2 + int(h>>3)%24
+				}
+			}
+			if t.holdLeft > 0 {
+				others := false
+				for _, o := range tasks {
+					others = others || (o != t && !o.done && !o.blocked)
+				}
+				if others {
+					t.holdLeft--
+					logf("w%d hold t%d\n", res.stats.Windows, t.id)
+					continue
+				}
+			}
+			t.holdDecided, t.holdLeft = false, 0
+		}
+
 		// Step faults due now: fired from this goroutine while the task is
 		// parked, i.e. asynchronously with respect to the executor.
 		for _, t := range members {
@@ -1008,7 +1040,7 @@ func (w *world) runConcurrent() *runResult {
 			panic(harnessf("scenario exceeded %d steps", maxScenarioSteps))
 		}
 	}
-	res.stats.SimNanos = time.Since(t0).Nanoseconds()
+	res.stats.SimSeconds = time.Since(t0).Seconds()
 	// What a call returned belongs to its caller: it must still read the
 	// same after every other call has finished (no buffer shared with the
 	// document or with later calls).
